@@ -795,12 +795,13 @@ Definition bag_input_diff (x x' : input QS) : list (nat * nat) :=
   end.
 
 (* The footprint the model allows for a perturbed input: the cells whose model output
-   changes.  `max` bags are the exception: whether a changed bag changes its maximum depends
-   on the parameter values (the model's differ from the implementation's), so the allowed set
-   is the set of cells whose input changed. *)
+   changes.  Bags are the exception: whether a changed bag changes its maximum depends on the
+   parameter values (the model's differ from the implementation's), and a bag with repeated
+   entries has the same exact mean but not the same rounded mean, so the allowed set is the
+   set of cells whose input changed. *)
 Definition allowed_cells (c : config QS) (x x' : input QS) (o o' : list (mat (X Q))) : list (nat * nat) :=
   match cf_enc QS c with
-  | EBags _ BagMax _ => bag_input_diff x x'
+  | EBags _ _ _ => bag_input_diff x x'
   | _ => diff_cells o o'
   end.
 
